@@ -30,6 +30,7 @@ func main() {
 	overlay := flag.String("overlay", "", "dev only (mutation sweep): ORIG=REPLACEMENT substitutes one source file's contents")
 	noInline := flag.Bool("no-inline", false, "dev: do not expand calls to new helpers before analysing (tests the fallback treatment)")
 	showNorm := flag.String("show-normalized", "", "dev: write the normalised source of FILE (as analysed) to stdout")
+	known := flag.String("known", "", "known-findings file (default: known_findings.json in the verif dir, else next to the binary's dir: a scratch -verif dir still sees the committed list)")
 	flag.Parse()
 	core.NoInline = *noInline
 	showNormalized = *showNorm
@@ -43,12 +44,18 @@ func main() {
 		core.Overlay = map[string][]byte{kv[0]: b}
 	}
 
+	home := "/verif"
+	if exe, err := os.Executable(); err == nil {
+		home = filepath.Dir(filepath.Dir(exe))
+	}
 	if *verif == "" {
-		exe, err := os.Executable()
-		if err == nil {
-			*verif = filepath.Dir(filepath.Dir(exe))
-		} else {
-			*verif = "/verif"
+		*verif = home
+	}
+	core.KnownPath = *known
+	if core.KnownPath == "" {
+		core.KnownPath = filepath.Join(*verif, "known_findings.json")
+		if _, err := os.Stat(core.KnownPath); err != nil {
+			core.KnownPath = filepath.Join(home, "known_findings.json")
 		}
 	}
 	if *explain != "" {
